@@ -102,6 +102,10 @@ type Lowerer struct {
 	// constsWithInlineInit tracks constants whose Init was set inline during lowering.
 	constsWithInlineInit map[ir.ConstantHandle]bool
 
+	// structAligns records AlignOf(S) of lowered structs including explicit
+	// @align attributes on their members (see lowerStruct).
+	structAligns map[ir.TypeHandle]uint32
+
 	// Errors and warnings
 	errors   parser.SourceErrors
 	warnings []Warning
@@ -733,7 +737,13 @@ func (l *Lowerer) lowerStruct(s *parser.StructDecl) error {
 	}
 	// Round struct size up to alignment of largest member
 	structSize := (offset + maxAlign - 1) &^ (maxAlign - 1)
-	l.registerNamedType(s.Name, ir.StructType{Members: members, Span: structSize})
+	handle := l.registerNamedType(s.Name, ir.StructType{Members: members, Span: structSize})
+	// AlignOf(S) includes explicit @align on members, which the IR does not record:
+	// remember it for uses of S as a member or array element.
+	if l.structAligns == nil {
+		l.structAligns = make(map[ir.TypeHandle]uint32)
+	}
+	l.structAligns[handle] = maxAlign
 	return nil
 }
 
@@ -838,6 +848,9 @@ func (l *Lowerer) typeAlignmentAndSize(handle ir.TypeHandle) (align, size uint32
 			if memberAlign > maxMemberAlign {
 				maxMemberAlign = memberAlign
 			}
+		}
+		if a := l.structAligns[handle]; a > maxMemberAlign {
+			maxMemberAlign = a
 		}
 		return maxMemberAlign, t.Span
 
